@@ -10,7 +10,7 @@ import tlc
 
 OPTS = ['gc', 'G', 'coverage', 'profile', 'buffer', 'warnings', 'D']
 ENDINGS = ['normal', 'failing', 'hookUp', 'hookDown', 'kbint', 'stop', 'postmortem',
-           'layerKbint', 'skipThenHookDown', 'kbintThenHookDown']
+           'layerKbint', 'skipThenHookDown', 'kbintThenHookDown', 'redirKbint']
 HOOKS = ['setUp', 'tearDown', 'testSetUp', 'testTearDown']
 
 
@@ -39,6 +39,12 @@ def make_world(wid, ending, rng):
         # the capture is still armed at stopTest when the test was skipped
         tests['t2']['body'].append('skip')
         layers['L2']['testTearDown'] = 'raise'
+    elif ending == 'redirKbint':
+        # the test replaces sys.stdout for itself in setUp, is interrupted, and
+        # its tearDown (which would put it back) never runs
+        tests['t2']['setUp'] = [{'a': 'redirect', 'stream': 'stdout'}]
+        tests['t2']['body'].append('kbint')
+        tests['t2']['tearDown'] = [{'a': 'unredirect', 'stream': 'stdout'}]
     elif ending == 'kbintThenHookDown':
         tests['t2']['body'].append('kbint')
         layers['L2']['testTearDown'] = 'raise'
@@ -147,15 +153,15 @@ def run(chk, tier, seed, replay=None):
     chk.rule = ('(1) TLC: GlobalState.tla - Runner.run as a pipeline (catch_warnings, '
                 'global_setup / late_setup of Coverage, Profiling, gc Threshold, gc Debug, '
                 'Traceback; per-test startTest / body / stopTest; early_teardown / '
-                'global_teardown in finally) for all 2^8 option subsets x 7 endings of the '
-                'test phase x caller with / without own trace and profile hooks: Restored, HooksRestored, '
-                'Terminates, mid-run state as predicted; eight deviation configs must each give a counterexample. (2) real '
+                'global_teardown in finally) for all 2^8 option subsets x 8 endings of the '
+                'test phase x caller without own hooks / with sys and threading trace hooks (two functions) and a profile hook / with a sys trace hook only: Restored, HooksRestored, '
+                'Terminates, mid-run state as predicted; ten deviation configs must each give a counterexample. (2) real '
                 'runs in a fresh interpreter each, with a non-default caller state (gc threshold '
                 '(701,11,9), an extra warnings filter, wrapped traceback functions, optionally own '
                 'trace / profile hooks): option subsets (quick: pairwise + all singles, thorough: '
-                'all 2^7) x 10 endings (normal, failing, exception from testSetUp / testTearDown, '
+                'all 2^7) x 11 endings (normal, failing, exception from testSetUp / testTearDown, '
                 'KeyboardInterrupt in a test / in a layer setUp, -x, -D post-mortem, skip or '
-                'KeyboardInterrupt followed by a raising testTearDown); snapshots before / inside a '
+                'KeyboardInterrupt followed by a raising testTearDown, KeyboardInterrupt in a test that had replaced sys.stdout for itself); snapshots before / inside a '
                 'test / after are compared by TLC; distinct = distinct (options, caller hooks, ending)')
     chk.assumptions += ['doctest report flags, pdb.set_trace and the root logging handler are named non-goals (DESIGN 5/C18)',
                         'exceptions raised before the test phase begins are outside the statement']
@@ -166,8 +172,8 @@ def run(chk, tier, seed, replay=None):
         return
     rng = random.Random(seed * 7919 + 18)
     chk.add_tlc('GlobalState_design', tlc.run('GlobalState', 'GlobalState_design', timeout=900))
-    for dev in ('CoverageResetsTrace', 'ProfileResetsHook', 'PostMortemResetsTrace', 'TeardownOutsideFinally', 'NoCatchWarnings', 'CatchWarningsOnlyIfSet',
-                'HooksDownBeforeRestore', 'TracebackKeepsPrint'):
+    for dev in ('CoverageResetsTrace', 'CoverageStopAllThreads', 'ProfileResetsHook', 'PostMortemResetsTrace', 'TeardownOutsideFinally', 'NoCatchWarnings', 'CatchWarningsOnlyIfSet',
+                'HooksDownBeforeRestore', 'TracebackKeepsPrint', 'RestoreOnlyOwnBuffer'):
         res = tlc.run('GlobalState', 'GlobalState_dev_' + dev, timeout=600)
         chk.add_tlc('dev_' + dev, res, expect_ok=False)
         if not res.violation:
@@ -184,15 +190,16 @@ def run(chk, tier, seed, replay=None):
         combos = [(s, e) for s in subsets for e in ENDINGS]
     jobs = []
     for k, (s, e) in enumerate(combos):
-        jobs.append(make_job('g%d' % k, s, e, False, rng))
+        jobs.append(make_job('g%d' % k, s, e, 'none', rng))
     # caller with its own trace / profile hooks (separate family: see known findings)
     for k, (s, e) in enumerate(combos[::7 if tier == 'quick' else 3]):
-        jobs.append(make_job('h%d' % k, s, e, True, rng))
+        jobs.append(make_job('h%d' % k, s, e, rng.choice(['both', 'sys']), rng))
     k = 0
     for s in (('coverage',), ('profile',), ('D',), ('coverage', 'profile', 'D'), tuple(OPTS)):
         for e in ('normal', 'failing', 'postmortem', 'kbint', 'hookDown', 'stop'):
-            k += 1
-            jobs.append(make_job('p%d' % k, s, e, True, rng))
+            for pre in ('both', 'sys'):
+                k += 1
+                jobs.append(make_job('p%d' % k, s, e, pre, rng))
     chk.sample({'args': jobs[5]['args'], 'meta': jobs[5]['meta'], 'pre': jobs[5]['pre'],
                 'world': jobs[5]['world']})
     run_jobs(chk, jobs, 'runs')
